@@ -23,7 +23,7 @@ def generate(tier, rng):
     cases = S.corpus_cases("C15")
     n = 400 if tier == "quick" else 10000
     for i in range(n):
-        force = {"policy": rng.choice(["sync", "sync", "deferred"]), "resp": "fixed", "conth": rng.choice([0, 1]), "invh": 0,
+        force = {"policy": rng.choice(["sync", "sync", "deferred"]), "resp": "fixed", "conth": rng.choice([0, 1, 1, 2]), "invh": 0,
                  "filter": "all", "autodisc": 0}
         line, o = gen_sim.server_line(rng, force)
         lines = [line, "accept"]
@@ -50,11 +50,18 @@ def generate(tier, rng):
                 body = b"4\r\nbody\r\n0\r\n\r\n"
             together = rng.chance(1, 3)
             kind = "expect" if (expect and version != b"1.0") else "none"
+            # conth=2: the handler rejects the expectation with a final 417; a by-the-book client then withholds the
+            # body and goes on with its next request on the same connection
+            rejected = kind == "expect" and str(o["conth"]) == "2" and o["policy"] != "deferred"
+            if rejected:
+                together = False
             if together and framing == "cl":
                 kind = "none"       # the complete body arrived with the head: nothing to wait for
             lines.append("read c0 " + hx(head + (body if together else b"")))
             exp.append((len(lines) - 1, 0, kind))
             lines.append("wdone c0")
+            if rejected:
+                continue
             if not together:
                 lines.append("read c0 " + hx(body))
                 if kind == "expect":
